@@ -147,16 +147,19 @@ Definition mux_flags (hv ha : bool) : N :=
 Definition mux_header (hv ha : bool) : bytes :=
   sigFLV ++ [1; mux_flags hv ha; 0; 0; 0; 9; 0; 0; 0; 0].
 
-Definition mux_tag_header (t : tag) : bytes :=
-  let size := u32 (lenN (t_body t)) in
-  let ts := t_ts t in
-  [u8 (t_type t);
+(* the 11 bytes before and the 4 bytes after a tag body depend on the body only through its
+   length (len(tag) as an int; uint32(len) for the size field, uint32(11+len) for the trailer) *)
+Definition mux_tag_header_n (ty ts len : N) : bytes :=
+  let size := u32 len in
+  [u8 ty;
    u8 (size / 65536); u8 (size / 256); u8 size;
    u8 (ts / 65536); u8 (ts / 256); u8 ts;
    u8 (ts / 16777216);
    0; 0; 0].
+Definition mux_tag_header (t : tag) : bytes := mux_tag_header_n (t_type t) (t_ts t) (lenN (t_body t)).
 
-Definition mux_tag_trailer (t : tag) : bytes := be4 (u32 (11 + lenN (t_body t))).
+Definition mux_tag_trailer_n (len : N) : bytes := be4 (u32 (11 + len)).
+Definition mux_tag_trailer (t : tag) : bytes := mux_tag_trailer_n (lenN (t_body t)).
 
 Definition mux_tag_writes (t : tag) : list bytes :=
   mux_tag_header t :: (match t_body t with [] => [] | _ => [t_body t] end) ++ [mux_tag_trailer t].
@@ -425,6 +428,16 @@ Definition run_c09 (c : sx) : sx :=
           else bad_case
       | _, _ => bad_case
       end
+  | SL [SZ 5%Z; SZ hv; SZ ha; SZ ty; SZ ts; SZ n; SZ _; SZ _] =>
+      (* one tag with an n-byte pattern body (n up to 2^24-1), observed through the bytes
+         around the body only: file header, tag header, PreviousTagSize, total length, Write
+         sizes.  The body bytes and the read-back are judged by the harness's direct oracles. *)
+      let len := Z.to_N n in
+      SL [SB (mux_header (zbool hv) (zbool ha));
+          SB (mux_tag_header_n (Z.to_N ty) (Z.to_N ts) len);
+          SB (mux_tag_trailer_n len);
+          sN (13 + 11 + len + 4);
+          SL ([sN 13; sN 11] ++ (if len =? 0 then [] else [sN len]) ++ [sN 4])]
   | SL [SZ 3%Z; SB wire; SL szs; SZ cut; SZ fault; SL ops] =>
       match sx_Ns szs with
       | Some sizes => SL (run_ops ops (mk_stream wire sizes cut fault))
